@@ -338,7 +338,7 @@ def run(ctx: Ctx) -> None:
         "dunder methods, properties and attributes of private bases are not generated (the statement speaks of public methods)",
         "a public class whose public base and private base define the same method is judged for the private ancestors' methods only",
     ]
-    failures = engine.search(ctx, MOD, shards=ctx.n(16, 96), examples=ctx.n(20, 80))
+    failures = engine.search(ctx, MOD, shards=ctx.n(16, 96), examples=ctx.n(30, 80))
     engine.report_failures(ctx, MOD, failures)
     engine.replay_known(ctx, MOD)
 
